@@ -1360,7 +1360,7 @@ class Simulation(Structure):
         Perform exactly one integration step with REBOUND. This function is rarely needed.
         Instead, use integrate().
         """
-        clibrebound.reb_simulation_step(byref(self))
+        clibrebound.reb_simulation_steps(byref(self),c_uint(1)) # takes the server mutex, reb_simulation_step does not
         self.process_messages()
     
     def steps(self, N_steps):
